@@ -2,18 +2,21 @@ package verif
 
 import (
 	"fmt"
+	"net"
 	"sort"
 	"strings"
 	"time"
 
 	"github.com/bokysan/socketace/v2/internal/server"
 	sdns "github.com/bokysan/socketace/v2/internal/streams/dns"
+	kcp "github.com/xtaci/kcp-go/v5"
 	"github.com/xtaci/smux"
 )
 
 func init() { Scenarios["C14"] = scenarioC14 }
 
 type ledger struct {
+	Kcp     int // KCP sessions the library counts as established (a session nobody closed holds no goroutine or socket)
 	G       map[string]int
 	Conns   int
 	Lsn     int
@@ -23,7 +26,7 @@ type ledger struct {
 
 func takeLedger(r *Run) ledger {
 	c, l, s := r.Net.OpenEndpoints()
-	return ledger{G: GoroutineLedger(), Conns: c, Lsn: l, Socks: s, Streams: smux.SimOpenStreams()}
+	return ledger{G: GoroutineLedger(), Conns: c, Lsn: l, Socks: s, Streams: smux.SimOpenStreams(), Kcp: int(kcp.DefaultSnmp.Copy().CurrEstab)}
 }
 
 // diff lists what b holds in excess of a (shrinking is never a leak).
@@ -55,6 +58,9 @@ func (a ledger) diff(b ledger) string {
 	if b.Socks > a.Socks {
 		out = append(out, fmt.Sprintf("open datagram sockets: %d -> %d", a.Socks, b.Socks))
 	}
+	if b.Kcp > a.Kcp {
+		out = append(out, fmt.Sprintf("KCP sessions never closed: %d -> %d", a.Kcp, b.Kcp))
+	}
 	if b.Streams > a.Streams {
 		out = append(out, fmt.Sprintf("multiplexer streams still in the stream table of a live session: %d -> %d", a.Streams, b.Streams))
 	}
@@ -79,6 +85,9 @@ func leakSites(a, b ledger) string {
 	}
 	if b.Streams > a.Streams {
 		out = append(out, "streams")
+	}
+	if b.Kcp > a.Kcp {
+		out = append(out, "kcp-sessions")
 	}
 	return strings.Join(out, ",")
 }
@@ -205,6 +214,43 @@ func scenarioC14(r *Run) {
 			r.Count("history_incomplete")
 			r.Info["incomplete"] = cs.Describe()
 			return false
+		}
+		// silent peers: somebody connects to the server endpoint at carrier level, says nothing for longer
+		// than any handshake allowance, and goes away. Nothing of it may remain on the server.
+		if !strings.HasPrefix(carrier, "stdio") && !CarrierIsDNS(carrier) {
+			for k := c.Pick(3, "silent-peers"); k > 0; k-- {
+				port := CarrierPort(carrier)
+				r.Net.SourceIP = fmt.Sprintf("10.0.1.%d", 100+k)
+				var sc net.Conn
+				var pc net.PacketConn
+				var err error
+				switch {
+				case CarrierIsKCP(carrier):
+					pc, err = r.Net.ListenPacket("udp", "")
+					if err == nil {
+						sc, err = kcp.NewConn2(&net.UDPAddr{IP: net.ParseIP(ServerIP), Port: port}, nil, 10, 3, pc)
+						if err == nil {
+							// KCP has no connection set-up: the server only learns of the peer from a first segment
+							go sc.Write([]byte{0})
+						}
+					}
+				case strings.HasPrefix(carrier, "unix"):
+					sc, err = r.Net.Dial("unix", fmt.Sprintf("sa-%d.sock", port), 0)
+				default:
+					sc, err = r.Net.Dial("tcp", fmt.Sprintf("%s:%d", ServerIP, port), 0)
+				}
+				r.Net.SourceIP = ClientIP
+				if err != nil {
+					r.Fail("harness", "silent peer could not connect: %v", err)
+					return false
+				}
+				r.RunFor(time.Duration(35+c.Pick(30, "silent-s")) * time.Second)
+				sc.Close()
+				if pc != nil {
+					pc.Close() // the session does not own the socket it was given
+				}
+				r.Count("silent_peers")
+			}
 		}
 		// refused connections: the application connects to the listener of a channel the server does not
 		// offer, writes a little, and hangs up 30 s later whatever the client did with it
